@@ -70,7 +70,7 @@ def build_args(argv):
 # ---------------------------------------------------------------------------------------------------------------
 # file generation (shared description: see tools/props/c08.py gen_lines)
 
-def render_line(lineno, nfields, flavor, ncols, rng, pad=0):
+def render_line(lineno, nfields, flavor, ncols, rng, pad=0, overrides=None):
     """One data line with exactly `nfields` csv fields (0 = blank line).  Always draws the same number of values."""
     f1 = rng.randint(0, 3)
     f2 = rng.randint(0, 6)
@@ -79,6 +79,15 @@ def render_line(lineno, nfields, flavor, ncols, rng, pad=0):
     label = (1 if f1 >= 2 else 0) if noise < 0.7 else rng.randint(0, 1)
     feats = (["a%d" % f1, "b%d" % f2] + ["c%d" % e for e in extra])[:max(0, ncols - 2)]
     cells = ["r%d" % lineno] + feats + [str(label)]
+    for idx, spec in (overrides or {}).items():  # edge columns: "const:<v>", "empty", "periodic:<k>"
+        j = int(idx)
+        if 0 <= j < len(cells):
+            if spec == "empty":
+                cells[j] = ""
+            elif spec.startswith("const:"):
+                cells[j] = spec[6:]
+            elif spec.startswith("periodic:"):
+                cells[j] = "p%d" % (lineno % int(spec[9:]))
     if pad and len(cells) > 1:                   # longer rows (scale files): the same suffix on every row, categories unchanged
         cells[1] = cells[1] + "_" * pad
     if nfields == 0:
@@ -109,7 +118,7 @@ def write_file(case, path):
             for j in range(count):
                 lineno += 1
                 last = (si == nseg - 1 and j == count - 1)
-                ln = render_line(lineno, nfields, flavor, ncols, rng, pad)
+                ln = render_line(lineno, nfields, flavor, ncols, rng, pad, case.get("col_override"))
                 if last and not case.get("trailing_newline", True) and ln != "":
                     f.write(ln)
                 else:
